@@ -18,7 +18,7 @@ RULE = ('Generated case (refs/c05_tankgen.py) = reservoir feeding 1-4 junctions 
         'step 900-7200 s, plus 1-6 simple controls: tank level/pressure/head above/below a threshold (also exactly at '
         'min/max level), hysteresis pairs, pairs of thresholds 0-5 cm apart (both crossed within one step), conflicting '
         'pairs with explicit priorities 0-6, junction-pressure controls and pressure hysteresis pairs; targets: feed '
-        'pump/pipe, tank links (pipes, CV pipes, pumps), other pipes (status), valves (status or setting; with a valve present, tank level -> valve setting controls are drawn three times as often as any other kind). Plus 8 (thorough '
+        'pump/pipe, tank links (pipes, CV pipes, pumps), other pipes (status), valves (status or setting; one case in five has a leaking tank; with a valve present, tank level -> valve setting controls are drawn three times as often as any other kind). Plus 8 (thorough '
         '16) enumerated cases in which a junction pressure ramps by ~2 cm per row across 3-decimal thresholds. '
         'Non-trivial = converged run in which at least one control changes its truth value between two reported rows; '
         'distinct = SHA-1 of the case.')
@@ -64,6 +64,11 @@ def strategy(draw, tier='quick'):
     if tier == 'thorough':
         f['max_steps'] = 200
     case = draw(G.scenario(f))
+    if draw(st.integers(0, 4)) == 0:
+        # a leaking tank: the leak is part of the net inflow that carries the level across the thresholds
+        tk = case['tanks'][draw(st.integers(0, len(case['tanks']) - 1))]
+        tk['leak'] = {'area': draw(st.sampled_from([2e-4, 5e-4, 1e-3, 2e-3])), 'cd': draw(st.sampled_from([0.75, 0.6])),
+                      'start': draw(st.sampled_from([0, 0, None, case['opts']['hyd']])), 'end': None}
     if draw(st.integers(0, 5)) == 0:
         # history: run, reset_initial_values(), run again (new or same simulator object); the second run is judged
         case['history'] = ['rerun', draw(st.sampled_from(['new', 'same']))]
